@@ -15,7 +15,7 @@ same denotation have the same members.
 -/
 import NetaddrVerif.Lemmas.IPSetL11
 import NetaddrVerif.Lemmas.IPSetIter1
-import NetaddrVerif.Lemmas.IPSetIter4
+import NetaddrVerif.Lemmas.IPSetIter5
 namespace NV.C06
 open NV NV.IPSet
 
@@ -228,13 +228,26 @@ theorem repr_eq_iff (be : AddrParse.Backend) (s t : St) (hs : Inv s) (ht : Inv t
     · intro e; unfold reprStrs; rw [e]
   exact ⟨h, h.trans (eq_iff s t hs ht)⟩
 
-/-- the full text `IPSet(['…', '…'])` is a function of that list, so equal sets print the same
-    text.  (The converse needs nothing about netaddr: it is the injectivity of CPython's `%r` of a
-    list of quote-free strings, which is not modelled; the text itself is compared with the real
-    `repr()` on every query row of the correspondence run.) -/
+/-- the full text `IPSet(['…', '…'])` is a function of that list, so equal sets print the same text -/
 theorem repr_text_of_eq (be : AddrParse.Backend) (s t : St) (hs : Inv s) (ht : Inv t)
     (h : IPSet.eq s t = true) : reprText be s = reprText be t := by
   unfold reprText; rw [((repr_eq_iff be s t hs ht).1).2 h]
+
+/-- **same `repr()` text iff equal**: the complete text `IPSet(['a/p', 'b/q', …])` of two
+    canonical sets coincides exactly when they compare equal, i.e. contain the same addresses.
+    Besides C03's round trip this uses that a printed network consists of hex digits, `.`, `:`
+    and `/` only (`Iter.netStr_cidrCh`), so the quoted, comma-separated rendering can be split
+    back unambiguously (`Iter.reprText_inj`). -/
+theorem repr_text_eq_iff (be : AddrParse.Backend) (s t : St) (hs : Inv s) (ht : Inv t) :
+    (reprText be s = reprText be t ↔ IPSet.eq s t = true) ∧
+    (reprText be s = reprText be t ↔ ∀ ver a, denS s ver a ↔ denS t ver a) := by
+  have h : reprText be s = reprText be t ↔ IPSet.eq s t = true := by
+    constructor
+    · intro e
+      exact ((repr_eq_iff be s t hs ht).1).1
+        (Iter.reprText_inj be s t (fun n hn => (hs.good n hn).1) (fun n hn => (ht.good n hn).1) e)
+    · exact repr_text_of_eq be s t hs ht
+  exact ⟨h, h.trans (eq_iff s t hs ht)⟩
 
 /-- two histories denote the same addresses iff their results print the same CIDR strings -/
 theorem reachable_repr_iff (be : AddrParse.Backend) (ops₁ ops₂ : List Op)
